@@ -62,7 +62,9 @@ def handle_number(number: func_xltypes.XlAnything, origin) -> Union[int, str]:
         as_str = str(int(number))
 
     elif isinstance(number, func_xltypes.Text):
-        as_str = str(number) if number else "0"
+        # An empty text counts as zero.  (The truth value of a Text is not
+        # the test for that: Text("false") is falsy but is not empty.)
+        as_str = str(number) or "0"
 
     if len(as_str) > 10:
         raise NumExcelError()
